@@ -91,7 +91,7 @@ zlaqgs(SuperMatrix *A, double *r, double *c,
     NCformat *Astore;
     doublecomplex   *Aval;
     int_t i, j, irow;
-    double large, small, cj;
+    double large, small, cj, big;
     extern double dlamch_(char *);
     double temp;
 
@@ -108,6 +108,7 @@ zlaqgs(SuperMatrix *A, double *r, double *c,
     /* Initialize LARGE and SMALL. */
     small = dlamch_("Safe minimum") / dlamch_("Precision");
     large = 1. / small;
+    big = 1. / dlamch_("Safe minimum"); /* no scale factor exceeds it */
 
     if (rowcnd >= THRESH && amax >= small && amax <= large) {
 	if (colcnd >= THRESH)
@@ -137,7 +138,15 @@ zlaqgs(SuperMatrix *A, double *r, double *c,
 	    for (i = Astore->colptr[j]; i < Astore->colptr[j+1]; ++i) {
 		irow = Astore->rowind[i];
 		temp = cj * r[irow];
-		zd_mult(&Aval[i], &Aval[i], temp);
+		if ( temp <= big ) {
+		    zd_mult(&Aval[i], &Aval[i], temp);
+		} else if ( cj >= r[irow] ) { /* cj * r[irow] overflows: larger factor first */
+		    zd_mult(&Aval[i], &Aval[i], cj);
+		    zd_mult(&Aval[i], &Aval[i], r[irow]);
+		} else {
+		    zd_mult(&Aval[i], &Aval[i], r[irow]);
+		    zd_mult(&Aval[i], &Aval[i], cj);
+		}
 	    }
 	}
 	*equed = BOTH;
